@@ -162,8 +162,50 @@ class TokenError(Exception):
     pass
 
 
-def tokenize(text: str, keep_pp: bool = False) -> list[tuple[str, str]]:
-    """[(kind, text)] with kind in id/num/str/chr/op (/pp); comments and white space dropped."""
+_SPLICE = re.compile(r"\\[ \t\f\v]*\r?\n")
+
+
+def splice_lines(text: str) -> str:
+    """C / C++ / Objective-C translation phase 2: a backslash directly before the end of a line (g++ and clang also
+    accept white space in between) joins the line with the next one — *before* comments are recognised, so a `//`
+    comment whose text ends in a backslash (any number of them: phase 2 knows no escapes) continues over the next line."""
+    return _SPLICE.sub("", text)
+
+
+def java_unicode_pretranslate(text: str) -> str:
+    """JLS 3.3: before tokenisation javac replaces `\\u+XXXX` by the character, where the backslash is eligible iff it is
+    preceded by an even number of contiguous backslashes (so `\\\\u002a` stays text, `\\\\\\u002a` is `\\\\*`); a `\\u` that
+    is eligible but not followed by four hex digits is a compile error (TokenError). The result is not rescanned."""
+    out, i, n, run = [], 0, len(text), 0
+    while i < n:
+        c = text[i]
+        if c != "\\":
+            out.append(c)
+            run = 0
+            i += 1
+            continue
+        if run % 2 == 0 and i + 1 < n and text[i + 1] == "u":
+            j = i + 1
+            while j < n and text[j] == "u":
+                j += 1
+            hx = text[j:j + 4]
+            if len(hx) != 4 or not all(h in "0123456789abcdefABCDEF" for h in hx):
+                raise TokenError(f"illegal unicode escape at {i}: {text[i:i + 12]!r}")
+            out.append(chr(int(hx, 16)))
+            run = 0   # a translated character (even a backslash) does not take part in further escapes
+            i = j + 4
+            continue
+        out.append(c)
+        run += 1
+        i += 1
+    return "".join(out)
+
+
+def tokenize(text: str, keep_pp: bool = False, lang: str = "c") -> list[tuple[str, str]]:
+    """[(kind, text)] with kind in id/num/str/chr/op (/pp); comments and white space dropped.
+    The text is first put through what the target compiler does *before* it recognises comments: line splicing for
+    the C family (`lang="c"`), unicode-escape translation for Java (`lang="java"`)."""
+    text = java_unicode_pretranslate(text) if lang == "java" else splice_lines(text)
     out, pos = [], 0
     while pos < len(text):
         m = _TOKEN.match(text, pos)
@@ -272,7 +314,7 @@ def extract_c_enum(text: str, type_name: str) -> list[tuple[str, list | None]]:
 
 
 def extract_java_enum(text: str, type_name: str) -> list[str]:
-    toks = tokenize(text)
+    toks = tokenize(text, lang="java")
     for i, t in enumerate(toks):
         if t[1] == "enum" and toks[i + 1][1] == type_name and toks[i + 2][1] == "{":
             end = _matching(toks, i + 2, "{", "}")
